@@ -61,7 +61,7 @@ PROPS = {
         "oracle_engine": {"clientcache": "sc"},
         "trusted": ["time is a parameter of the model"],
         "technique": "Lean 4 theorems (command-map key injectivity for all strings (prefix-code argument over the comma escaping), MapCommand touches exactly one route, resume only via the routed triple, drop on failure, invalidate/expire remove routes) + correspondence of real client handshakes over (tag, server, command) histories against model and an independent reference map",
-        "level_text": "routes_lead_home + resume_only_same_triple (invariant over ALL histories of client operations, the server choosing the session identifier in every full handshake: a route leads only to sessions of its own tag and server for a command the server declared, and a resumption by route returns such a session's key and identity; legacy_store_breaks_routes is the history that broke it before fix 59f34db), key_injective (for ALL tags, addresses and commands: commas inside a part are escaped; comma_triples_distinct is the pair that collided before the fix), mapCommand_route, resume_only_routed, explicit_id_plants_no_route (a handshake that names a cached session by id never adds a command-map binding), drop_on_failure, next_is_full, invalidate_removes_routes, expire_removes_routes, WF preservation: kernel-checked. Tied to the code by the clientcache engine: histories of real ClientHandshake calls over 4 tags x 5 addresses x 3 commands with server restarts, broken connections, expiry, invalidation; all 60 routes compared after every step with the model and with a reference map kept by the spec rules.",
+        "level_text": "routes_lead_home + resume_only_same_triple (invariant over ALL histories of client operations, the server choosing the session identifier in every full handshake: a route leads only to sessions of its own tag and server for a command the server declared, and a resumption by route returns such a session's key and identity; legacy_store_breaks_routes is the history that broke it before fix 59f34db), key_injective (for ALL tags, addresses and commands: commas inside a part are escaped; comma_triples_distinct is the pair that collided before the fix), mapCommand_route, resume_only_routed, explicit_id_plants_no_route (a handshake that names a cached session by id never adds a command-map binding), drop_on_failure, next_is_full, invalidate_removes_routes, expire_removes_routes, WF preservation: kernel-checked. Tied to the code by the clientcache engine: histories of real ClientHandshake calls over 4 tags x 5 addresses x 3 commands with server restarts, broken connections, expiry, invalidation; all 60 routes compared after every step with the model and with a reference map kept by the spec rules. The RAW command map (VerifCommandMap) is compared with the model after every step and histories contain expire -> by-id lookup (entry dropped, mappings left) -> sweep / Invalidate: invalidate_leaves_no_route, sweep_leaves_no_dangling_route, sweep_routes_live (legacy_invalidate_leaves_route: the witness before fix 93a7a4b).",
         "level_note": "No assumption on the characters of tags, addresses or commands remains (the comma collision found by the theorem was confirmed on the real cache and repaired).",
         "assumptions": [],
     },
@@ -351,7 +351,7 @@ PROPS["C17"] = {'assumptions': ["sync.Mutex / sync.RWMutex mutual exclusion, syn
  'level_text': 'lockset_sound (Eraser soundness for any number of threads over mutexes with a shared mode), cache_discipline (every method of SessionCache / '
                'SessionEntry in the regenerated fact table obeys the declared guard policy and releases its locks, hence no interleaving of any threads '
                'calling any of them on any objects has a data race on any field), cache_atomic_sections (each cache method is one critical section), '
-               'globals_once, invalidate_wins + wf_reachable (in every linearization nothing returns an invalidated id until it is stored again), resumption_path_never_stores + invalidate_wins_resumption (the stored-again hypothesis discharged from the code for resumptions in flight: regenerated table of cache calls on both resumption paths lists no Store), fact_tables_inhabited, sweep_count, '
+               'globals_once, counter_minted_in_one_step + atomic_mints_distinct (the session counter advances by ONE atomic read-modify-write in the regenerated table, hence all identifiers minted under any interleaving are distinct; split_mint_collides: load+store collides without a data race), client_store_files_entry_first + store_then_map_survives_sweep (storeClientSession files the entry before it maps commands, so a concurrent expiry sweep leaves the routes; map_then_store_loses_route: the other order), invalidate_wins + wf_reachable (in every linearization nothing returns an invalidated id until it is stored again), resumption_path_never_stores + invalidate_wins_resumption (the stored-again hypothesis discharged from the code for resumptions in flight: regenerated table of cache calls on both resumption paths lists no Store), fact_tables_inhabited, sweep_count, '
                'config_not_written (every library NewAuthenticator call site hands over a copy; only declared writes through configurations), '
                'handshakes_isolated (all interleavings, one copy per connection) with sharing_disturbs as the recorded reason, established_after_handshake, '
                'directions_independent (every interleaving of send and receive operations on an established stream shows each goroutine exactly what it sees '
